@@ -127,11 +127,14 @@ def to_script(ops: list, base: dict, *, seed: int, verbose=None, saving=None, nj
            "saving": base["savings"][0] if saving is None else saving, "seed": seed, "njobs": njobs, "prec": prec}
     if any(o[0] in ("mkckpt", "restore") for o in sops):
         cfg["saving"] = True
+        cfg["elsewhere"] = seed % 3 != 0      # explicit checkpoints written to (and restored from) a folder that is not the saving folder
     # shape of the simulated series: (N, D, length of the real series) - varied pseudo-randomly with the seed unless given
     n, d, nreal = shape if shape is not None else [(8, 1, 8), (9, 2, 9), (8, 3, 8), (10, 2, 8), (8, 1, 8)][seed % 5]
     cfg.update({"N": n, "D": d, "Nreal": nreal})
     if njobs > 1 and seed % 2 == 0:
         cfg.update({"slow": True, "D": 1})     # parameter-dependent run times: workers complete out of task order
+    elif seed % 7 == 3:
+        cfg.update({"scribble": True, "D": 1})  # the model overwrites its parameter argument after use
     return {"cfg": cfg, "ops": sops, "loss": {"seq": losses, "default": base["lossvals"][-1]}, "faults": faults,
             "agent": agent or [0], "tlc_ops": ops}
 
@@ -204,6 +207,9 @@ def validate(chk: Check, traces: list[dict], *, relevant: set[str] | None = None
             before = [e.get("e") for e in tr["ev"][:why["at"]]]
             props = {"C04", "C05"} if "restore" in before else ({"C10", "C11", "C09"} if tr["cfg"]["kind"] == "rl" else {chk.pid})
             clauses = ["unexpected-exception:" + ev0.get("type", "")[:60]]
+        if any(e.get("e") == "hang" for e in tr["ev"]):
+            clauses = ["call-never-returned"] + clauses
+            props |= {"C11", "C10", "C09", chk.pid} if tr["cfg"]["kind"] == "rl" else {"C11", chk.pid}
         if any(e.get("e") == "harness-error" for e in tr["ev"]):
             clauses = ["harness-error"] + clauses
             props.add(chk.pid)
